@@ -486,7 +486,7 @@ def life_oracle(ops, obs):
     requests on the other reloader or on a dead notifier cause nothing.  (What is_dead() answers is compared
     with the model only: the property does not speak about it.)"""
     fails = []
-    st = [dict(alive=True, pending=False, fast=False, cb=False, gen=0), dict(alive=True, pending=False, fast=False, cb=False, gen=0)]
+    st = [dict(alive=True, pending=False, fast=False, cb=False, gen=0, armed=False), dict(alive=True, pending=False, fast=False, cb=False, gen=0, armed=False)]
     res = iter(obs.split(","))
     for o in ops.split(","):
         k, op = (1, o[1:]) if o.startswith("2") else (0, o)
@@ -495,11 +495,17 @@ def life_oracle(ops, obs):
             got = next(res, "?")
             if not x["alive"]:
                 continue
+            g0 = x["gen"]
             if x["gen"] == 0:
                 x["gen"] = 1
             elif (x["pending"] or x["cb"]) and not x["fast"]:
                 x["gen"] += 1
             x["pending"] = False
+            if x["gen"] > g0 and x["armed"]:
+                # the creator ran: the request it issues on the OTHER reloader (op X) is a request like any other
+                x["armed"] = False
+                if st[1 - k]["alive"]:
+                    st[1 - k]["pending"] = True
             if got != f"g{x['gen']}":
                 fails.append((f"reloader {k + 1}: acquire handed out {got}, expected generation g{x['gen']} (requests on it since its last acquire decide, nothing else)", "life:wrong-generation"))
                 if got.startswith("g") and got[1:].isdigit():
@@ -513,6 +519,8 @@ def life_oracle(ops, obs):
         elif op in ("B0", "B1"):
             if x["alive"]:
                 x["cb"] = op == "B1"
+        elif op == "X":
+            x["armed"] = True
         elif op == "D":
             x["alive"] = False
         elif op in ("Q", "q"):
